@@ -147,11 +147,11 @@ def psd_is_defining_sum(observation, mask, sensor_dim, source_dim, time_dim, nor
     if ev.size and np.any(ev[..., 0] < -1e-9 * scale - 1e-300):
         return Fail('not-psd', f'negative eigenvalue {float(np.min(ev))} for a non-negative mask')
     # read-only inputs: an in-place write would raise
-    o2 = obs0.copy()
+    o2 = obs0.copy(order='K')
     o2.setflags(write=False)
     m2 = None
     if mask0 is not None:
-        m2 = mask0.copy()
+        m2 = mask0.copy(order='K')
         m2.setflags(write=False)
     try:
         PSD(o2, m2, sensor_dim=sensor_dim, source_dim=source_dim, time_dim=time_dim, normalize=normalize)
